@@ -5,7 +5,7 @@ import json, subprocess, os
 CHECKS = {
  "C09": dict(level="exploration", engine="sweep",
    technique="bounded-exhaustive enumeration of operand pairs on the real generic arithmetic at scaled-down word sizes + limb-boundary lattice for deployed primes, vs integer reference model",
-   text="Every operand pair / raw word / exponent of the same generic single-word and split-word Montgomery code instantiated at 8- and 16-bit words (every odd prime < 2^8; ten 16-bit primes incl. the scaled analogues of the deployed primes) is compared with plain integer arithmetic; the make_field! public API is checked on every element and every byte string of the small fields; the deployed 32/64/128/255-bit fields are checked on an all-pairs limb-boundary lattice against BigUint, with all constants re-derived from their definitions.",
+   text="Every operand pair / raw word / exponent of the same generic single-word and split-word Montgomery code instantiated at 8- and 16-bit words (every odd prime < 2^8; ten 16-bit primes incl. the scaled analogues of the deployed primes) is compared with plain integer arithmetic; the make_field! public API is checked on every element and every byte string of the small fields; the deployed 32/64/128/255-bit fields are checked on an all-pairs limb-boundary lattice against BigUint, with all constants re-derived from their definitions. Field255: TryFrom<&[u8]> must agree with decode on every candidate string (canonical, >= p, top bit set).",
    note="Deployed primes are not enumerable: the claim for them rests on 'same generic code, word size is a type parameter' + constants + lattice. Field255 (fiat-crypto backend) is lattice-only.",
    design="§2 C09"),
 }
@@ -17,7 +17,7 @@ CHECKS["C01"] = dict(level="exploration", engine="sweep",
    design="§2 C01")
 CHECKS["C05"] = dict(level="exploration", engine="sweep",
    technique="exhaustive enumeration of inputs x joint/query randomness over GF(17)/GF(97) on the real generic FLP code, exact acceptance counting vs the soundness bound, all adversarial proofs for Count/GF(17)",
-   text="For every shipped circuit (and a harness-defined degree-3 circuit) instantiated over GF(17)/GF(97)/GF(193): every input vector x every joint randomness x every gadget query point (compression/prove randomness: all or alphabet, recorded per instance) goes through the real prove/query/decide; valid inputs must always be accepted, refusal must coincide exactly with r^P=1, invalid inputs are decided by exact acceptance counts against the specification's soundness bound; every proof in F^5 is tried as an adversarial prover for Count/GF(17) (<= d(P-1) accepting points); verifier linearity over share counts 1..254 and share menus; every wrong argument length in [0,declared+2] must be an Err; deployed fields: randomness lattice, all P-th roots, seeded randomness lines (pigeonhole).",
+   text="For every shipped circuit (and a harness-defined degree-3 circuit) instantiated over GF(17)/GF(97)/GF(193): every input vector x every joint randomness x every gadget query point (compression/prove randomness: all or alphabet, recorded per instance) goes through the real prove/query/decide; valid inputs must always be accepted, refusal must coincide exactly with r^P=1, invalid inputs are decided by exact acceptance counts against the specification's soundness bound; every proof in F^5 is tried as an adversarial prover for Count/GF(17) (<= d(P-1) accepting points); verifier linearity over share counts 1..254 and share menus; every wrong argument length in [0,declared+2] must be an Err; deployed fields: randomness lattice, all P-th roots, seeded randomness lines (pigeonhole). Share counts up to 512; L1BoundSum/Multihot/SumVec shapes whose last chunk holds one element; bounds of full field width (63/64 digits over Field64, 127/128 over Field128).",
    note="Adversarial proofs are exhaustive only for Count/GF(17); deployed-field soundness uses seeded lines (a line lies in the zero set with probability ~2^-60).",
    design="§2 C05")
 
@@ -29,7 +29,7 @@ CHECKS["C02"] = dict(level="fault_enumeration", engine="sweep",
 
 CHECKS["C17"] = dict(level="exploration", engine="sweep",
    technique="bounded-exhaustive enumeration of ordered measurement pairs x sharding tapes on the real sharding code, byte-wise comparison of shares",
-   text="Every ordered pair of measurements (full domain when small, edge set otherwise) is sharded with identical randomness and nonce for all seven Prio3 types over 2..254 aggregators and 1..2 proofs (plus small-field instantiations where rejection sampling in share expansion is frequent) and for Poplar1 with all inputs of 1..6 bits, inputs of 8..256 bits with a one-bit departure at every position, and 1024/4099-bit inputs with departures at block boundaries: helpers' Prio3 input shares and their joint-randomness parts, the leader's blind, and both Poplar1 input shares must be byte-identical; the leader's measurement-share difference must equal the difference of the two encodings computed from a separately constructed Type.",
+   text="Every ordered pair of measurements (full domain when small, edge set otherwise) is sharded with identical randomness and nonce for all seven Prio3 types over 2..254 aggregators and 1..2 proofs (plus small-field instantiations where rejection sampling in share expansion is frequent) and for Poplar1 with all inputs of 1..6 bits, inputs of 8..256 bits with a one-bit departure at every position, and 1024/4099-bit inputs with departures at block boundaries: helpers' Prio3 input shares and their joint-randomness parts, the leader's blind, and both Poplar1 input shares must be byte-identical; the leader's measurement-share difference must equal the difference of the two encodings computed from a separately constructed Type. In a report assembled in one buffer (header, input share, public share appended with encode) the input-share bytes must be exactly the share's own encoding.",
    note="Sharding randomness and nonces are a fixed tape alphabet.",
    design="§2 C17")
 CHECKS["C18"] = dict(level="fault_enumeration", engine="sweep",
@@ -50,7 +50,7 @@ CHECKS["C10"] = dict(level="exploration", engine="sweep",
    design="§2 C10")
 CHECKS["C19"] = dict(level="exploration", engine="sweep",
    technique="bounded-exhaustive enumeration of 0/1 vectors, non-binary positions and share/proof alterations on the real Prio2 code, decided by pigeonhole counting over more query points than the degree bound",
-   text="All 0/1 vectors up to length 8/10 (edge vectors up to 2^19-1) are sharded with fixed seeds, verified through all wire encodings and aggregated against integer sums; non-binary inputs with honest proofs and every single-element alteration of the leader share, helper seed bytes and a forged-proof menu are evaluated at 4n+1 distinct non-root query points through verify_init_with_query_rand: acceptance at more than 2n-1 points is a violation (deterministic despite the 32-bit field); verifier-share tampering over 8 keys; codecs; the query-point rejection loop against scripted streams containing every 2n-th root of unity.",
+   text="All 0/1 vectors up to length 8/10 (edge vectors up to 2^19-1) are sharded with fixed seeds, verified through all wire encodings and aggregated against integer sums; non-binary inputs with honest proofs and every single-element alteration of the leader share, helper seed bytes and a forged-proof menu are evaluated at 4n+1 distinct non-root query points through verify_init_with_query_rand: acceptance at more than 2n-1 points is a violation (deterministic despite the 32-bit field); verifier-share tampering over 8 keys; codecs; the query-point rejection loop against scripted streams containing every 2n-th root of unity. Every value is also decoded from a cursor at offset 4/7/32 of a larger record with trailing data (same value, cursor right behind it).",
    note="The HMAC/AES derivation of the query point is not re-derived (binding is C18's); at length 2^19-1 only systematic acceptance is flagged.",
    design="§2 C19")
 CHECKS["C20"] = dict(level="model_checking", engine="bfs",
@@ -91,12 +91,12 @@ CHECKS["C04"] = dict(level="fault_enumeration", engine="sweep",
 
 CHECKS["C07"] = dict(level="exploration", engine="sweep",
    technique="bounded-exhaustive enumeration of byte strings (all strings of length <=2, every single-byte substitution / truncation / extension of every honest encoding, every field slot at 0/p-1/p/p+1/all-ones) against a reference grammar of each wire format, for every (type, decoding parameter) pair",
-   text="A catalogue of ~2,400 (decodable type, decoding parameter) pairs -- all Prio3 messages for seven types x 1..4 aggregators x 1..3 proofs, Poplar1 with 32- and 16-byte seeds for 1..9 bits at every level and round, Prio2, ping-pong messages and continuations over five VDAFs, seeds, all fields, IDPF public shares, the vector helpers -- with honest values produced in-process; the library must accept a string exactly when a harness-side reference grammar does, every accepted string must re-encode to itself, encoded_len() must equal the produced length and decode(encode(v)) == v.",
+   text="A catalogue of ~2,400 (decodable type, decoding parameter) pairs -- all Prio3 messages for seven types x 1..4 aggregators x 1..3 proofs, Poplar1 with 32- and 16-byte seeds for 1..9 bits at every level and round, Prio2, ping-pong messages and continuations over five VDAFs, seeds, all fields, IDPF public shares, the vector helpers -- with honest values produced in-process; the library must accept a string exactly when a harness-side reference grammar does, every accepted string must re-encode to itself, encoded_len() must equal the produced length and decode(encode(v)) == v. Also: encode() into a buffer that already holds 21 bytes must leave them alone and append exactly get_encoded() (every catalogue value); every opaque field inside every ping-pong message of a Poplar1 and a Prio3 exchange lengthened / shortened / doubled must be refused by the routine that decodes it; aggregation-parameter strings with stray padding bits in a non-final prefix.",
    note="FLP lengths sizing Prio3 records come from the Type trait (C05's subject); for long strings the mutated positions are a strided subset; FieldPrio2 is not exhaustive over its 2^32 strings.",
    design="§2 C07")
 CHECKS["C08"] = dict(level="fault_enumeration", engine="sweep",
    technique="fault enumeration of byte strings (C07's sets plus header fields at extremes x bodies 0..40 bytes) against every decoder in worker subprocesses with a counting allocator (per-call budget) and a watchdog",
-   text="Every decoder x every admissible decoding parameter is run on C07's string sets plus crafted headers (aggregation-parameter level/count at extremes, length prefixes at 0/len/len+-1/max, output_share_len up to 2^32-1, tags 0..255) in worker subprocesses: a call must return Ok or Err -- no panic (overflow checks on), no hang (2 s), and no allocation beyond 256*len + instance-implied size + 64 KiB (counting global allocator aborts the worker, the parent attributes the death to the case).",
+   text="Every decoder x every admissible decoding parameter is run on C07's string sets plus crafted headers (aggregation-parameter level/count at extremes, length prefixes at 0/len/len+-1/max, output_share_len up to 2^32-1, tags 0..255) in worker subprocesses: a call must return Ok or Err -- no panic (overflow checks on), no hang (2 s), and no allocation beyond 256*len + instance-implied size + 64 KiB (counting global allocator aborts the worker, the parent attributes the death to the case). Decoding parameters with enormous declared sizes (histogram chunk 2^27 / 2^61, 2^31 buckets, SumVec of 2^40 elements, Prio2 at maximum length) on short strings: no panic, no instance-proportional allocation (found and fixed: 5fd7253).",
    note="Decoding parameters are admissible instances (Poplar1 bits 1..64 and 65536; bits=0 is run separately). Instances with absurd bit lengths (>= 2^59) are not run (instance-proportional allocation).",
    design="§2 C08")
 CHECKS["C13"] = dict(level="model_checking", engine="bfs",
@@ -106,7 +106,7 @@ CHECKS["C13"] = dict(level="model_checking", engine="bfs",
    design="§2 C13")
 CHECKS["C15"] = dict(level="model_checking", engine="choices",
    technique="weighted choice-tape exploration: exhaustive path enumeration of each sampler layer with exact rational / interval probability mass, lower layers intercepted and answered from their specified law (assume-guarantee), down to a residual of 2^-40 (quick) / 2^-64 (thorough)",
-   text="Each private sampler layer (uniform big integer through the public Rng interface with scripted words; Bernoulli(n/d) for ALL n<=d<=64/128; Bernoulli(exp(-gamma)); geometric; discrete Laplace; discrete Gaussian) runs for real under a poisoned Rng while its calls to the layer below are intercepted, their arguments checked against Canonne-Kamath-Steinke, and their outcomes enumerated with exact masses (rational intervals for e^-x on a 2^-192 grid); rejection loops are cut at the renewal point (verified by replay) and the enumerated law must contain the closed-form law for every integer with mass above the residual. The public distributions reach the samplers with the exact rational; both strategies give scale = sensitivity/epsilon exactly; add_noise_to_agg_share draws once per coordinate with the documented sensitivity and adds noise mod p (floor) for noise in {0,+-1,+-(p-1),+-p,+-(p+1),+-2^200}.",
+   text="Each private sampler layer (uniform big integer through the public Rng interface with scripted words; Bernoulli(n/d) for ALL n<=d<=64/128; Bernoulli(exp(-gamma)); geometric; discrete Laplace; discrete Gaussian) runs for real under a poisoned Rng while its calls to the layer below are intercepted, their arguments checked against Canonne-Kamath-Steinke, and their outcomes enumerated with exact masses (rational intervals for e^-x on a 2^-192 grid); rejection loops are cut at the renewal point (verified by replay) and the enumerated law must contain the closed-form law for every integer with mass above the residual. The public distributions reach the samplers with the exact rational; both strategies give scale = sensitivity/epsilon exactly; add_noise_to_agg_share draws once per coordinate with the documented sensitivity and adds noise mod p (floor) for noise in {0,+-1,+-(p-1),+-p,+-(p+1),+-2^200}. Noise is added by a clone of the instance and the noised share is unsharded (with a zero share of the other aggregator): the result must be (aggregate + noise) mod p per coordinate.",
    note="Biases below the residual above the Bernoulli/uniform layers are not visible; the renewal argument is verified to a finite nesting depth; end-to-end (only the uniform layer intercepted) is coarse and Laplace-only.",
    design="§2 C15")
 CHECKS["C16"] = dict(level="fault_enumeration", engine="sweep",
